@@ -23,7 +23,9 @@ def okDedupe (F : Facts) : Bool :=
 
 def okShapes (F : Facts) : Bool :=
   F.markBottomUp && F.markNeedsAllChildrenDone && F.allDoneUsesHasWork && F.completeShape && F.addChildShape &&
-  F.addChildFrom == ["GotRedirected", "GotChildren"] && F.dnrShape
+  F.addChildFrom == ["GotRedirected", "GotChildren"] && F.dnrShape &&
+  -- the model treats AddChild / RemoveChild as atomic: the whole body runs under the write lock
+  F.removeChildAtomic && F.removeFirstById && F.addChildAtomic
 
 /-- fact values the theorems rest on -/
 def ok (F : Facts) : Bool := okSets F && okCheck F && okDedupe F && okShapes F
